@@ -50,6 +50,7 @@ FILES = {
         "def deco(c):\n    c.tag = -1 ** 2 + (-1) ** 2\n    return c\n"
         "@deco\nclass K:\n    x = 1 if not 0 < 1 <= 2 else (yield_ := 2)\n    def m(self, *a, k=(1, 2)):\n        return [i for i in a if i] or k\n"
         "print(K.tag, K.x, K().m(0, 3), K().m(), (lambda: (yield_2 := 5))(), 2 ** -1, not (1 and 0), -(1 + 2))\n"
+        "print(sorted((i * i for i in (3, 1, 2)), reverse=True), max((j for j in ()), default=None), dict(((1, 2),), **{'z': 0}, y=1))\n"
     ),
     "unconvertible.py": "try:\n    x = 1\nexcept Exception:\n    pass\nprint(x)\n",
 }
